@@ -40,6 +40,24 @@ inline bool VariantData::setString(TAdaptedString value,
   return false;
 }
 
+template <typename TAdaptedString>
+inline void VariantData::setString(VariantData* var, TAdaptedString value,
+                                   ResourceManager* resources) {
+  if (!var)
+    return;
+  if (value.isNull() || value.isLinked()) {
+    var->clear(resources);
+    var->setString(value, resources);
+    return;
+  }
+  // save the new string before releasing the old one: `value` may designate
+  // the characters of the string that `var` currently holds
+  auto dup = resources->saveString(value);
+  var->clear(resources);
+  if (dup)
+    var->setOwnedString(dup);
+}
+
 inline void VariantData::clear(ResourceManager* resources) {
   if (type_ & VariantTypeBits::OwnedStringBit)
     resources->dereferenceString(content_.asOwnedString->data);
